@@ -62,3 +62,62 @@ Definition c11_ok_xq (c : list xq * list xq * list Z) : bool :=
 Definition c11_ok_z (c : list Z * list Z * list Z) : bool :=
   let '(ax, qs, expected) := c in
   list_eqb Z.eqb (map (fun q => res_code (lower_index NumZ ax q)) qs) expected.
+
+Definition c12_ok_z (c : list Z * mono) : bool :=
+  match monotonic_prop NumZ (fst c) with
+  | Ok m => mono_eqb m (snd c)
+  | _ => false
+  end.
+
+(* ---------------- C09 / C13 / C14: entry points over strided memory ---------------- *)
+From NI Require Export Entry.
+
+Definition scen1_fun {T} (N : Num T) (s : scen1 T) : option (T -> outcome (list T)) :=
+  let n := length (s_rows s) in
+  let ax := axis_or_default N (s_ax s) n in
+  match s_strat s with
+  | SLinear =>
+      match build1d_checks N 2 ax n with
+      | Ok _ => Some (fun q => linear_interp N (s_ext s) ax (s_rows s) q)
+      | _ => None
+      end
+  | SSpline b =>
+      match (_ <- build1d_checks N 3 ax n ;; spline_build N b (s_ext s) ax (s_rows s) (s_trail s)) with
+      | Ok sp => Some (fun q => spline_interp N sp ax (s_rows s) q)
+      | _ => None
+      end
+  end.
+
+(* the allocation is poisoned with -(1000 + address) *)
+Definition poison_mem : @mem xq := fun a => XFin (Q2Qc (- (1000 + a) # 1)).
+
+Definition entry1_ok
+  (c : scen1 xq * list nat * (Z * list nat * list Z) * nat * (Z * list xq)) : bool :=
+  let '(s, qshape, (off, shape, strides), B, (code, memexp)) := c in
+  match scen1_fun NumXQ s with
+  | None => false
+  | Some F =>
+      match interp_array_into F (s_trail s) qshape (s_queries s) (mkView off shape strides) poison_mem with
+      | Ok m' => Z.eqb code 0 && list_eqb xq_same (map m' (map Z.of_nat (seq 0 B))) memexp
+      | ErrOOB => Z.eqb code 1
+      | Panic => Z.eqb code 2
+      | _ => false
+      end
+  end.
+
+(* ---------------- C18: trace of strategy calls ---------------- *)
+From NI Require Export Framework.
+
+Definition c18_ok (c : list nat * list nat * list Z * Z * list Z * Z) : bool :=
+  let '(trail, qshape, qs, failv, calls, code) := c in
+  let lanes := size_of trail in
+  let F := fun x : Z => if Z.eqb x failv then @ErrOOB (list Z) else Ok (repeat x lanes) in
+  let buffer := fresh_view (qshape ++ trail) in
+  let work := combine (indices qshape) qs in
+  list_eqb Z.eqb (map fst (loop_calls F trail buffer work)) calls &&
+  forallb (fun p => list_eqb Nat.eqb (snd p) trail) (loop_calls F trail buffer work) &&
+  match array_loop F trail buffer work (fun _ => 0%Z) with
+  | Ok _ => Z.eqb code 0
+  | ErrOOB => Z.eqb code 1
+  | _ => false
+  end.
